@@ -180,9 +180,11 @@ func Run(cfg Config, ids []string) int {
 				for k, v := range res.Stats {
 					stats[r.Engine+"."+k] += v
 				}
-				// engine-level failures (panic, unresolved anchors) always count
+				// engine-level failures (panic, unresolved anchors, paths the
+				// engine could not evaluate) always count: every rule of the
+				// engine is only as complete as its exploration
 				for _, o := range res.Obls {
-					if o.Rule == "PANIC" || o.Rule == "ANCHOR" {
+					if o.Rule == "PANIC" || o.Rule == "ANCHOR" || o.Rule == "B0" || o.Verdict == oblig.Undecided {
 						obls = append(obls, o)
 					}
 				}
